@@ -15,6 +15,7 @@ import json
 import os
 import random
 import shutil
+import zlib
 import sys
 from typing import Any, Dict, Iterator, List, Optional
 
@@ -456,6 +457,13 @@ class WriteFaults(Engine):
                     "input_name": "input.gbk", "logfile": rng.choice(["inside", "outside", "none"]),
                     "explicit_output_dir": True, "level": rng.choice(["pipeline", "pipeline", "function"]),
                     "verbosity": rng.choice(["", "", "--verbose", "--debug"]), "profiling": rng.random() < 0.25}
+        # foreign directories whose names merely resemble the input copy directory; drawn from a side stream
+        # derived from the entries so far, so that the main random stream (and every older scenario) is unchanged
+        side = random.Random(zlib.crc32(json.dumps(entries, sort_keys=True).encode()) ^ 0x5EED)
+        if side.random() < 0.2:
+            entries.append({"name": side.choice(["inputs_backup", "input.old", "input2", "input_", "my_input"]),
+                            "type": "dir", "children": [{"name": "seq.gbk", "type": "file", "content": "child"}
+                                                        for _ in range(side.choice([0, 1]))]})
         return {"kind": "directory", "entries": entries,
                 "dirname": rng.choice(["out", "out", "out", "run[1]", "results*", "my results", "a?b"]),
                 "exists": rng.random() < 0.9, "is_file": rng.random() < 0.05,
